@@ -100,6 +100,24 @@ def check_program(ctx, p, src, tag):
         k = key if key and ('elements' in d or 'Stat' in d) else None
         ctx.violation('tree differs from the program: expected vs exposed at %s' % d, case, key=k)
         return
+    # the tree as a walker sees it ("the tree walked by build"): a BaseASTWalker subclass that overrides nothing but the token hook is
+    # handed the token-valued fields in source order
+    class TokenOrder(lua.BaseASTWalker):
+        def _walk_token(self, token):
+            yield token
+    try:
+        seen = list(TokenOrder(L.tokens, L.root).walk())
+    except Exception as e:
+        ctx.violation('walking the tree with a BaseASTWalker subclass raised %r' % (e,), case)
+        return
+    index = {id(t): k for k, t in enumerate(L.tokens)}
+    pos = [index.get(id(t), -1) for t in seen]
+    ctx.monitor('walker_token_visits', len(pos))
+    for k in range(1, len(pos)):
+        if pos[k] <= pos[k - 1]:
+            ctx.violation('a tree walker is handed token %r (token %d of the source) after token %r (token %d): operands out of source order' % (
+                bytes(seen[k].code)[:20], pos[k], bytes(seen[k - 1].code)[:20], pos[k - 1]), case)
+            return
     for c in shortif_context(p, src):
         ctx.feature(c)
 
@@ -329,6 +347,8 @@ def gates(m, tier):
         missed.append('bare-CR sources with a short-if: %d' % f.get('bare_cr_with_short_if', 0))
     if mon.get('printast_runs', 0) < 100:
         missed.append('printast runs: %d' % mon.get('printast_runs', 0))
+    if mon.get('walker_token_visits', 0) < 5000:
+        missed.append('tokens handed to a tree walker: %d' % mon.get('walker_token_visits', 0))
     if mon.get('trees_compared', 0) < 1000:
         missed.append('trees compared: %d' % mon.get('trees_compared', 0))
     return missed
